@@ -1,7 +1,7 @@
 /-
   Property C11 — armor framing: well-formed output, tolerant re-flowed input,
-  validated frames.  Statements only; proofs in Saltpack/Proofs/ArmorRT.lean
-  (+ ArmorLemmas, ArmorBytes; BaseX facts from C10).
+  validated frames.  Statements only; proofs in Saltpack/Proofs/ArmorRT.lean,
+  ArmorSound.lean (+ ArmorLemmas, ArmorBytes; BaseX facts from C10).
 
   `Armor.seal62` is what `Armor62Seal` / `NewArmor62EncoderStream` write;
   `Armor.open62` is the meaning of `Armor62Open(WithValidation)` /
@@ -14,6 +14,7 @@
   frame is returned as received (trimmed), and it normalises to the original.
 -/
 import Saltpack.Proofs.ArmorRT
+import Saltpack.Proofs.ArmorSound
 
 namespace Saltpack.Props.C11
 open Saltpack Saltpack.Armor Saltpack.Proofs
@@ -42,6 +43,24 @@ theorem C11_line_breaks (k : Nat) (w : Bytes) (ws : List Bytes) (hws : ws ≠ []
   cases ws with
   | nil => exact absurd rfl hws
   | cons x xs => rfl
+
+/-- **Declarative layout of the sealed text** (not by unfolding the encoder): the
+    base62 characters of the payload are cut into words of 15 (the last one
+    1…15), the words into lines of 200 (the last one 1…200); inside a line the
+    words are joined by single spaces (`intercalateSp`), the lines by single
+    newlines (`joinLines`); before it `header. `, after it an optional single
+    space/newline and `. footer.\n`. -/
+theorem C11_seal_layout (typ : Int) (brand payload : Bytes) :
+    ∃ (lines : List (List Bytes)) (pad : Bytes),
+      seal62 typ brand payload =
+        header typ brand ++ [period, space] ++ joinLines (lines.map intercalateSp) ++ pad ++
+          [period, space] ++ footer typ brand ++ [period, newline] ∧
+      lines = chunks 200 (chunks 15 (Basex.encode params62.enc payload)) ∧
+      lines.flatten.flatten = Basex.encode params62.enc payload ∧
+      (pad = [] ∨ pad = [space] ∨ pad = [newline]) ∧
+      ∀ line ∈ lines, line ≠ [] ∧ line.length ≤ 200 ∧
+        ∀ w ∈ line, w ≠ [] ∧ w.length ≤ 15 ∧ ∀ c ∈ w, (params62.enc.digit? c).isSome = true :=
+  seal_layout typ brand payload
 
 /-- **The sealed text** is `header . body . ␠footer . \n` where the body's
     non-skip characters are exactly the base62 encoding of the payload. -/
@@ -111,6 +130,27 @@ theorem C11_roundtrip_novalidation (payload hdr' body' ftr' trail : Bytes)
 
 /-! ## rejection -/
 
+/-- **Soundness of every validating entry point** (`Armor62OpenWithValidation`,
+    the `Dearmor62…` functions): a text is accepted only if it is
+    `hdrRaw . body . ftrRaw . trail` with exactly three periods, all bytes valid
+    armor bytes, both raw frames shorter than 8192; the returned header/footer are
+    the raw frames with white space trimmed; they *parse* as `BEGIN`/`END` frames of
+    the requested type carrying one and the same brand — the returned one; and the
+    body's non-skip characters decode (strictly) to the returned payload.
+    Contrapositive: anything else is rejected. -/
+theorem C11_open_sound (typ : Int) (text : Bytes) (o : Opened) (h : open62 (some typ) text = .ok o) :
+    ∃ hdrRaw body ftrRaw trail,
+      text = hdrRaw ++ [period] ++ body ++ [period] ++ ftrRaw ++ [period] ++ trail ∧
+      period ∉ hdrRaw ∧ period ∉ body ∧ period ∉ ftrRaw ∧ period ∉ trail ∧
+      (∀ c ∈ hdrRaw, validByte params62 c = true) ∧ (∀ c ∈ body, validByte params62 c = true) ∧
+      (∀ c ∈ ftrRaw, validByte params62 c = true) ∧ (∀ c ∈ trail, validByte params62 c = true) ∧
+      hdrRaw.length < 8192 ∧ ftrRaw.length < 8192 ∧
+      o.header = trimSpace hdrRaw ∧ o.footer = trimSpace ftrRaw ∧
+      parseFrame o.header typ Gen.c_sp_headerMarker = .ok o.brand ∧
+      parseFrame o.footer typ Gen.c_sp_footerMarker = .ok o.brand ∧
+      Basex.decode params62.enc.strict (Basex.filterSkip params62.enc body) = .ok o.payload :=
+  open_sound typ text o h
+
 /-- a frame of another armorable type is rejected by the entry point's check -/
 theorem C11_rejects_wrong_type (typ typ' : Int) (ht : Armorable typ) (ht' : Armorable typ') (hne : typ ≠ typ')
     (brand f' : Bytes) (hb : BrandOK brand) (hv : FrameVariant (header typ brand) f') :
@@ -131,7 +171,16 @@ theorem C11_brand_bounded (m : Bytes) (typ : Int) (marker brand : Bytes) (h : pa
     brand.length ≤ 128 :=
   parse_brand_len m typ marker brand h
 
+/-- `strings.TrimSpace` as modelled (Unicode white space, UTF-8 decoded from both
+    ends) is plain ASCII trimming on everything the armor path hands it: `toASCII`
+    lets valid armor bytes through only, and those are below 0x80 -/
+theorem C11_trimSpace_ascii (b : Bytes) (hb : ∀ c ∈ b, validByte params62 c = true) :
+    trimSpace b = trimSpaceAscii b :=
+  trimSpace_eq_ascii_valid b hb
+
 /-! ## non-vacuity -/
+example : joinLines [[65], [66, 67]] = [65, 10, 66, 67] := by decide
+example : trimSpace [0xC2, 0x85, 0xE3, 0x80, 0x80, 66, 0xE2, 0x80, 0xA8, 32] = [66] := by decide
 example : Armorable mtEncryption ∧ Armorable mtAttached ∧ Armorable mtDetached :=
   ⟨Or.inl rfl, Or.inr (Or.inl rfl), Or.inr (Or.inr rfl)⟩
 example : BrandOK [75, 69, 89] := ⟨by decide, by decide⟩
